@@ -24,6 +24,7 @@ type zzC05World struct {
 	scriptCT []byte                  // a ciphertext under the script crypto key
 	pass    []byte
 	taproot ManagedTaprootScriptAddress
+	kept    []ManagedPubKeyAddress // derived by path while unlocked, held by the caller only
 }
 
 func zzAllZero(b []byte) bool {
@@ -68,6 +69,20 @@ func zzNewC05World(state0 int) *zzC05World {
 			_, err = w.mgr.Address(ns, w.pubAddr[0].Address())
 			return err
 		}))
+		// an address object derived by path while unlocked and kept by the
+		// caller: the manager does not hold it (Lock cannot wipe it), its
+		// accessors must still refuse once the manager is locked
+		zzMust(w.view(func(ns walletdb.ReadBucket) error {
+			ma, err := sm.DeriveFromKeyPath(ns, DerivationPath{InternalAccount: 0, Account: 0, Branch: ExternalBranch, Index: 7})
+			if err != nil {
+				return err
+			}
+			pk, err := ma.(ManagedPubKeyAddress).PrivKey()
+			verifrt.Assert(err == nil && pk != nil, "c05-setup-derived-address-has-key")
+			w.kept = append(w.kept, ma.(ManagedPubKeyAddress))
+			return nil
+		}))
+		verifrt.Reach("kept-derived-address")
 		kp := DerivationPath{InternalAccount: 0, Account: 0, Branch: ExternalBranch, Index: 1}
 		k, err := sm.DeriveFromKeyPathCache(kp)
 		zzMust(err)
@@ -203,7 +218,7 @@ func (w *zzC05World) gated(label string) {
 	isLockErr := func(err error) bool {
 		return IsError(err, ErrLocked) || IsError(err, ErrWatchingOnly)
 	}
-	for _, a := range w.pubAddr {
+	for _, a := range append(append([]ManagedPubKeyAddress{}, w.pubAddr...), w.kept...) {
 		verifrt.Observe("accessor", "PrivKey")
 		k, err := a.PrivKey()
 		verifrt.Assert(k == nil && isLockErr(err), label+"-privkey-refused")
